@@ -247,9 +247,9 @@ func c06Hook(c *Ctx) {
 }
 
 func c06Loopback(c *Ctx) {
-	T := 120 * time.Millisecond
+	T := 100 * time.Millisecond
 	workers := 8
-	N := c.N(500, 6000) // cases per worker goroutine
+	N := c.N(400, 6000) // cases per worker goroutine
 	ops := append([]*rm.Op{rm.FindOp("GetDevices")}, reqOps()...)
 	var wg sync.WaitGroup
 	for w := 0; w < workers; w++ {
@@ -271,6 +271,7 @@ func c06Loopback(c *Ctx) {
 				args   rm.Vals
 				reply  []byte
 				noise  [][]byte
+				delay  time.Duration // < 0: no reply at all
 			}
 			f.fm.SetScript(func(ep *farm.Endpoint, src net.Addr, req []byte, seq uint64) []farm.Action {
 				cur.Lock()
@@ -278,7 +279,10 @@ func c06Loopback(c *Ctx) {
 				if cur.op == nil || cur.op.NoReply || len(req) != 64 {
 					return nil
 				}
-				out := []farm.Action{}
+				if cur.delay < 0 {
+					return nil
+				}
+				out := []farm.Action{{Delay: cur.delay}}
 				if ep.Proto == "udp" {
 					for _, b := range cur.noise {
 						out = append(out, farm.Action{Data: b})
@@ -341,22 +345,21 @@ func c06Loopback(c *Ctx) {
 					}
 					return n
 				}
+				histBefore := total()
 				hist := c06History(r, u, cfg, serial, [][4]byte{{127, 0, 0, 2}, {127, 0, 0, 9}, {10, 9, 8, 7}}, i%40 == 7, func(hop *rm.Op, hs uint32, ha rm.Vals) {
 					cur.Lock()
-					cur.op, cur.serial, cur.args, cur.noise = hop, hs, ha, nil
+					cur.op, cur.serial, cur.args, cur.noise, cur.delay = hop, hs, ha, nil, 0
 					cur.reply = validReply(r, hop, hs+map[bool]uint32{true: 77, false: 0}[hop.Discovery], ha)
 					cur.Unlock()
 				})
 				if len(hist) > 0 {
 					// let the farm see (and answer) everything the earlier calls sent before the judged call starts
-					for q, last := 0, int64(-1); q < 100; q++ {
+					// every earlier call put exactly one request on the network: wait (bounded) until the farm has logged them all -
+					// a TCP request of a call that does not wait for a reply can be read by the farm well after the call returned
+					for q := 0; q < 500 && total() < histBefore+int64(len(hist)); q++ {
 						time.Sleep(2 * time.Millisecond)
-						if t := total(); t == last {
-							break
-						} else {
-							last = t
-						}
 					}
+					time.Sleep(3 * time.Millisecond)
 					f.fm.WaitIdle(2 * time.Second)
 					c.Res.Count("loopback:cases-with-earlier-calls-on-the-client", 1)
 				}
@@ -368,6 +371,16 @@ func c06Loopback(c *Ctx) {
 					cur.reply = validReply(r, op, serial, a)
 				}
 				cur.noise = c06Noise(r, cur.reply)
+				// a reply that takes most of the timeout, or never comes: still exactly one request
+				cur.delay = 0
+				replyClass := "prompt"
+				switch x := r.Pick(20); {
+				case x < 1:
+					cur.delay, replyClass = T*65/100, "after-0.65T"
+				case x < 2:
+					cur.delay, replyClass = -1, "never"
+				}
+				c.Res.Count("loopback:reply:"+replyClass, 1)
 				nNoise := len(cur.noise)
 				cur.Unlock()
 				if nNoise > 0 {
@@ -426,7 +439,7 @@ func c06Loopback(c *Ctx) {
 					desc = append(desc, fmt.Sprintf("%s endpoint %s from %s (%d bytes)", e.Proto, f.fm.Endpoints[e.Endpoint].Addr, e.Src, len(e.Data)))
 				}
 				wv := map[string]any{"layer": "loopback", "op": op.Name, "config": fmt.Sprintf("%+v", cfg), "controller": dv.state, "protocol": dv.proto, "bind": cfg.Bind,
-					"expected": fmt.Sprintf("%s %s", wantProto, wantEP.Addr), "arrivals": desc, "err": out.Err, "elapsed_ms": elapsed.Milliseconds(), "earlier_calls_on_this_client": hist, "stray_datagrams_before_reply": nNoise}
+					"expected": fmt.Sprintf("%s %s", wantProto, wantEP.Addr), "arrivals": desc, "err": out.Err, "elapsed_ms": elapsed.Milliseconds(), "earlier_calls_on_this_client": hist, "stray_datagrams_before_reply": nNoise, "reply": replyClass}
 				key := fmt.Sprintf("C06:loopback:%s:%s", dv.state, wantProto)
 				if len(recvs) == 0 && (strings.Contains(out.Err, "address already in use") || strings.Contains(out.Err, "cannot assign requested address")) {
 					c.Res.Inconcl("bind collision on a 'fixed' port: " + out.Err)
